@@ -102,7 +102,7 @@ func probesAt(s *chain.Sim, rng *rand.Rand) []probe {
 		if r == nil || e.SiacoinOutput.Value.IsZero() || nsc > 40 {
 			continue
 		}
-		lockFree := r.Kind == "uc1" || r.Kind == "uc2of3" || r.Kind == "pk" || r.Kind == "hash" || r.Kind == "thresh"
+		lockFree := r.Kind == "uc1" || r.Kind == "uc2of3" || r.Kind == "uc2of70" || r.Kind == "ucalien" || r.Kind == "pk" || r.Kind == "hash" || r.Kind == "thresh"
 		// maturity: spendable iff MaturityHeight <= child
 		if lockFree && near(e.MaturityHeight) {
 			if v1ok && r.V1Spendable() {
@@ -242,7 +242,7 @@ func probesAt(s *chain.Sim, rng *rand.Rand) []probe {
 		if near(net.HardforkV2.RequireHeight) {
 			for _, e := range s.St.SortedSC() {
 				r := s.RecipeFor(e.SiacoinOutput.Address)
-				if r != nil && (r.Kind == "uc1" || r.Kind == "uc2of3") && e.MaturityHeight <= child {
+				if r != nil && (r.Kind == "uc1" || r.Kind == "uc2of3" || r.Kind == "uc2of70" || r.Kind == "ucalien") && e.MaturityHeight <= child {
 					if b, supp, _, ok := v1SpendBlock(s, e); ok {
 						add("v1-forbidden-from-require", net.HardforkV2.RequireHeight, child < net.HardforkV2.RequireHeight, b, supp)
 						break
@@ -254,7 +254,7 @@ func probesAt(s *chain.Sim, rng *rand.Rand) []probe {
 	if !v1ok && near(net.HardforkV2.RequireHeight) {
 		for _, e := range s.St.SortedSC() {
 			r := s.RecipeFor(e.SiacoinOutput.Address)
-			if r != nil && (r.Kind == "uc1" || r.Kind == "uc2of3") && e.MaturityHeight <= child {
+			if r != nil && (r.Kind == "uc1" || r.Kind == "uc2of3" || r.Kind == "uc2of70" || r.Kind == "ucalien") && e.MaturityHeight <= child {
 				if b, supp, _, ok := v1SpendBlock(s, e); ok {
 					add("v1-forbidden-from-require", net.HardforkV2.RequireHeight, false, b, supp)
 					break
@@ -266,7 +266,7 @@ func probesAt(s *chain.Sim, rng *rand.Rand) []probe {
 	if near(net.HardforkV2.AllowHeight) {
 		for _, e := range s.St.SortedSC() {
 			r := s.RecipeFor(e.SiacoinOutput.Address)
-			if r != nil && (r.Kind == "uc1" || r.Kind == "uc2of3") && e.MaturityHeight <= child {
+			if r != nil && (r.Kind == "uc1" || r.Kind == "uc2of3" || r.Kind == "uc2of70" || r.Kind == "ucalien") && e.MaturityHeight <= child {
 				if b, ok := v2SpendBlock(s, e); ok {
 					add("v2-allowed-from-allow", net.HardforkV2.AllowHeight, child >= net.HardforkV2.AllowHeight, b, consensus.V1BlockSupplement{})
 					break
